@@ -19,18 +19,15 @@ package crypto
 //@ -- NewKeyFromSeed(64 bytes): SetUniformBytes never fails on 64 bytes and yields a reduced (canonical) scalar.
 //@ -- (Key).DeterministicHashDerive: assumed contract in zz_contracts_c30_verif.go (result is a canonical scalar)
 
-//@ assume func (k Key) String
-//@   pure
+//@ -- (Key).String: VERIFIED contract in zz_contracts_c32_codec_verif.go (pure; result == HexOf(seq(k)))
 
 //@ assume func (k Key) HasValue
 //@   pure
 //@   ensures result <==> exists i int :: 0 <= i && i < 32 && k[i] != 0
 
-//@ assume func (h Hash) String
-//@   pure
+//@ -- (Hash).String: VERIFIED contract in zz_contracts_c32_codec_verif.go (pure; result == HexOf(seq(h)))
 
-//@ assume func (s Signature) String
-//@   pure
+//@ -- (Signature).String: VERIFIED contract in zz_contracts_c32_codec_verif.go (pure; result == HexOf(seq(s)))
 
 //@ -- (Hash).ForNetwork: verified contract in zz_contracts_c30_verif.go
 
